@@ -254,7 +254,14 @@ def k15(parse):
     sd = ast.unparse(methods[("MapFuture", "_set_delegate")])
     if "self._delegate = delegate" not in sd or "self._delegate.add_done_callback(self._delegate_resolved)" not in sd:
         raise Untranslatable("K15: _set_delegate changed")
-    body = ("open MoreExec.PyMap in\n/-- `MapFuture._delegate_resolved` with `MapFuture._on_mapped` -/\ndef resolvedMap : Stmt :=\n %s\n\n"
+    # `_me_cancel`: the request is forwarded to the delegate while there is one; with no delegate (the future is being resolved, or
+    # is done) the answer is False - never True: there would be nothing the cancel had been forwarded to
+    mc = find_function(mtree, "MapFuture._me_cancel")
+    mcb = [ast.unparse(st) for st in mc.body if not (isinstance(st, ast.Expr) and isinstance(st.value, ast.Constant))]
+    me_cancel_ok = mcb == ["with self._me_lock:\n    if self._delegate:\n        return self._delegate.cancel()", "return False"]
+    body = ("/-- `MapFuture._me_cancel` forwards to the delegate while there is one and answers False otherwise -/\n"
+            "def meCancelForwardsOrRefuses : Bool := %s\n\n" % ("true" if me_cancel_ok else "false")) + \
+           ("open MoreExec.PyMap in\n/-- `MapFuture._delegate_resolved` with `MapFuture._on_mapped` -/\ndef resolvedMap : Stmt :=\n %s\n\n"
             "open MoreExec.PyMap in\n/-- `MapFuture._delegate_resolved` on a `FlatMapFuture` (its `_on_mapped`, `super()._on_mapped` inlined) -/\n"
             "def resolvedFlat : Stmt :=\n %s\n\n"
             "/-- `self._map_fn = map_fn or <this>` -/\ndef mapDefault : MoreExec.PyMap.FnSlot := %s\n"
